@@ -320,6 +320,151 @@ pub fn explore(ctx: &Ctx) -> Outcome {
     out
 }
 
+//------------ C02 only: stored fallback and single-type CAs -----------------
+
+/// Placements after which the fetched publication point cannot be used as
+/// a whole: the engine then falls back to what it stored in an earlier run.
+pub fn abandon_places(spec: &TreeSpec) -> Vec<Place> {
+    all_places(spec).into_iter().filter(|p| match p {
+        Place::Obj(_, _, f) => matches!(f, Fault::Missing | Fault::HashMismatch),
+        Place::Point(_, _) => true,
+        _ => false,
+    }).collect()
+}
+
+/// Run 1 publishes the fault-free tree and fills the store; run 2 publishes
+/// a newer version (manifest number and thisUpdate advanced everywhere)
+/// carrying `place`. Returns what run 2 serves.
+pub fn run_two(
+    gen: &Gen, dir: std::path::PathBuf, place: &Place, cfg: &Cfg
+) -> Result<DataSet, String> {
+    let now = rpki::repository::x509::Time::now();
+    let v1 = Builder::at(gen, cfg.stale, now).build(&rpkigen::base_tree());
+    let mut spec = rpkigen::base_tree();
+    for tal in &mut spec.tals {
+        tal.ca.visit_mut(&mut |ca: &mut CaSpec| { ca.mft_number = 2; ca.mft_this_update += 600; });
+    }
+    apply(&mut spec, place);
+    let v2 = Builder::at(gen, cfg.stale, now).build(&spec);
+    let case = Case::new(dir);
+    case.write_tals(&v1);
+    let mut config = case.config();
+    cfg.apply(&mut config);
+    case.publish(&v1);
+    util::catch(|| etree::run(&config, false, &LocalExceptions::empty()))
+        .map_err(|e| format!("engine panicked in run 1: {e}"))??;
+    case.publish(&v2);
+    let out = util::catch(|| etree::run(&config, false, &LocalExceptions::empty()))
+        .map_err(|e| format!("engine panicked in run 2: {e}"))??;
+    let _ = std::fs::remove_dir_all(&case.dir);
+    Ok(out.data)
+}
+
+/// A tree in which each payload type also occurs alone in a CA.
+pub fn single_type_tree() -> TreeSpec {
+    use std::net::Ipv4Addr;
+    use crate::rpkigen::{ObjSpec, TalSpec};
+    let mut ta = CaSpec::new("ta0", 0, "ta0.example", "repo");
+    ta.v4 = vec![(Ipv4Addr::new(10, 0, 0, 0), 8)];
+    ta.asns = vec![(64496, 64511)];
+    ta.objs = vec![ObjSpec::roa("r0a", 64496, "10.0.0.0", 16, 16)];
+    let mut asonly = CaSpec::new("asonly", 1, "ta0.example", "repo");
+    asonly.asns = vec![(64500, 64501)];
+    asonly.objs = vec![ObjSpec::aspa("a1", 64500, &[64496, 64497])];
+    let mut keyonly = CaSpec::new("keyonly", 2, "ta0.example", "repo");
+    keyonly.asns = vec![(64502, 64502)];
+    keyonly.objs = vec![ObjSpec::router("k1", 64502, 0)];
+    let mut roaonly = CaSpec::new("roaonly", 3, "ta0.example", "repo");
+    roaonly.v4 = vec![(Ipv4Addr::new(10, 3, 0, 0), 16)];
+    roaonly.objs = vec![ObjSpec::roa("r3", 64503, "10.3.0.0", 16, 24)];
+    let mut empty = CaSpec::new("nopayload", 4, "ta0.example", "repo");
+    empty.v4 = vec![(Ipv4Addr::new(10, 4, 0, 0), 16)];
+    empty.asns = vec![(64504, 64505)];
+    let mut below = CaSpec::new("below", 5, "ta0.example", "repo");
+    below.asns = vec![(64504, 64504)];
+    below.objs = vec![ObjSpec::aspa("a5", 64504, &[64496])];
+    empty.children.push(below);
+    ta.children.extend([asonly, keyonly, roaonly, empty]);
+    TreeSpec { tals: vec![TalSpec {
+        name: "alpha".into(), ta_uri: "rsync://ta0.example/repo/ta0.cer".into(),
+        ca: ta, wrong_key: false, https_uri: None,
+    }]}
+}
+
+/// The additional C02 cases; returns (evaluations, nontrivial, violations).
+fn explore_c02_extra(ctx: &Ctx) -> (u64, u64, Vec<(String, String, Value)>, std::collections::BTreeMap<String, u64>) {
+    let gen = Gen::load();
+    let mut viol = Vec::new();
+    let mut outcomes = std::collections::BTreeMap::new();
+    let threads = std::env::var("ETREE_THREADS").ok().and_then(|s| s.parse().ok()).unwrap_or(8);
+    // (a) single-type CAs under every configuration
+    let cfgs = Cfg::all();
+    let res = util::par_map(cfgs.len() as u64, threads, |i| {
+        let cfg = &cfgs[i as usize];
+        let image = Builder::new(&gen, cfg.stale).build(&single_type_tree());
+        let case = Case::new(ctx.scratch.join(format!("single-{i}")));
+        case.publish(&image);
+        case.write_tals(&image);
+        let mut config = case.config();
+        cfg.apply(&mut config);
+        let out = util::catch(|| etree::run(&config, false, &LocalExceptions::empty()))
+            .map_err(|e| format!("engine panicked: {e}")).and_then(|r| r);
+        let _ = std::fs::remove_dir_all(&case.dir);
+        (i as usize, out.map(|o| judge(&CaseResult { image, served: o.data }, cfg, None).1))
+    });
+    let mut evaluations = 0;
+    let mut nontrivial = 0;
+    for (i, r) in res {
+        evaluations += 1;
+        nontrivial += 1;
+        let cfg = &cfgs[i];
+        let replay = json!({"kind": "single-type", "cfg": cfg.label()});
+        match r {
+            Err(e) => viol.push(("tree:run-failed:single-type".into(), format!("single-type tree {}: {e}", cfg.label()), replay)),
+            Ok(c02) => {
+                *outcomes.entry(format!("single-type:{}", if c02.is_empty() { "complete" } else { "VIOLATION" })).or_insert(0) += 1;
+                for (class, msg) in c02 {
+                    viol.push((format!("tree:{class}:single-type-ca"), format!("single-type tree {}: {msg}", cfg.label()), replay.clone()));
+                }
+            }
+        }
+    }
+    // (b) fall-back to the stored point: every placement that voids a
+    // fetched point, after a fault-free run
+    let places = abandon_places(&rpkigen::base_tree());
+    let cfgs2: Vec<Cfg> = if ctx.tier.thorough() { Cfg::all().into_iter().filter(|c| c.bgpsec && c.aspa).collect() } else { vec![Cfg::default()] };
+    let base: std::collections::BTreeMap<String, BTreeSet<Payload>> = cfgs2.iter().map(|cfg| {
+        let r = run_case(&gen, ctx.scratch.join("two-base"), &[], cfg).expect("fault-free baseline run failed");
+        (cfg.label(), payload_set(&r.served))
+    }).collect();
+    let cases: Vec<(Place, Cfg)> = cfgs2.iter().flat_map(|c| places.iter().map(move |p| (p.clone(), c.clone()))).collect();
+    let res = util::par_map(cases.len() as u64, threads, |i| {
+        let (place, cfg) = &cases[i as usize];
+        (i as usize, run_two(&gen, ctx.scratch.join(format!("two-{i}")), place, cfg))
+    });
+    for (i, r) in res {
+        let (place, cfg) = &cases[i];
+        evaluations += 1;
+        nontrivial += 1;
+        let replay = json!({"kind": "stored-fallback", "fault": place.label(), "cfg": cfg.label()});
+        match r {
+            Err(e) => viol.push(("tree:run-failed:stored-fallback".into(), format!("second run with {} {}: {e}", place.label(), cfg.label()), replay)),
+            Ok(data) => {
+                let served = payload_set(&data);
+                let missing: Vec<String> = base[&cfg.label()].difference(&served).map(data::fmt_payload).collect();
+                *outcomes.entry(format!("stored-fallback:{}", if missing.is_empty() { "complete" } else { "VIOLATION" })).or_insert(0) += 1;
+                if !missing.is_empty() {
+                    viol.push((format!("tree:dropped-stored:{}", place.fingerprint_kind()), format!(
+                        "after a fault-free run, a newer publication with {} ({}) made the run drop {} although the stored, still current point holds them",
+                        place.label(), cfg.label(), missing.join(", ")
+                    ), replay));
+                }
+            }
+        }
+    }
+    (evaluations, nontrivial, viol, outcomes)
+}
+
 fn report_for(ctx: &Ctx, which: usize) -> Report {
     let out = explore(ctx);
     let mut rep = Report::new("exploration");
@@ -341,6 +486,22 @@ fn report_for(ctx: &Ctx, which: usize) -> Report {
         with at least one MUST-NOT item".into();
     let list = if which == 1 { out.c01 } else { out.c02 };
     for (fp, msg, replay) in list { rep.violation(fp, msg, replay); }
+    if which == 2 && ctx.shard.is_none_or(|(i, _)| i == 0) {
+        let (e, n, viol, outcomes) = explore_c02_extra(ctx);
+        rep.evaluations += e;
+        rep.nontrivial += n;
+        for (k, v) in outcomes { *rep.outcomes.entry(k).or_insert(0) += v; }
+        for (fp, msg, replay) in viol { rep.violation(fp, msg, replay); }
+        rep.rule.push_str("; C02 additionally: a tree in which each payload \
+            type occurs alone in a CA (ASPA only, router key only, ROA \
+            only, a CA without payload above an ASPA-only CA) under all 24 \
+            configurations; and two-run histories: a fault-free run fills \
+            the store, then a newer publication carries one placement that \
+            voids a fetched point (listed file missing / hash mismatch, \
+            every manifest and CRL fault) - everything the fault-free run \
+            served must still be served from the stored points");
+        rep.bound.push_str("; + 24 single-type runs + every point-voiding placement as a second run");
+    }
     for (fp, msg, replay) in out.errors { rep.violation(fp, msg, replay); }
     rep.assumptions.push("rsync transport only here (RRDP paths: C24/C25/C29/C41); \
         payload values are unique per object so set membership identifies the source".into());
@@ -355,6 +516,46 @@ pub fn replay(ctx: &Ctx, v: &Value) -> Report {
     let gen = Gen::load();
     let spec = rpkigen::base_tree();
     let places = all_places(&spec);
+    if let Some(kind) = v["kind"].as_str() {
+        let cfg = Cfg::all().into_iter().find(|c| Some(c.label().as_str()) == v["cfg"].as_str()).unwrap_or(Cfg::default());
+        rep.evaluations = 1; rep.nontrivial = 1;
+        rep.sample(v.clone());
+        if kind == "stored-fallback" {
+            let Some(place) = places.iter().find(|p| Some(p.label().as_str()) == v["fault"].as_str()) else {
+                eprintln!("unknown fault"); std::process::exit(2)
+            };
+            let base = payload_set(&run_case(&gen, ctx.scratch.join("replay-base"), &[], &cfg).expect("baseline").served);
+            match run_two(&gen, ctx.scratch.join("replay"), place, &cfg) {
+                Ok(data) => {
+                    println!("second run served: {}", data.describe());
+                    let missing: Vec<String> = base.difference(&payload_set(&data)).map(data::fmt_payload).collect();
+                    if !missing.is_empty() {
+                        rep.violation(format!("tree:dropped-stored:{}", place.fingerprint_kind()), format!("dropped {}", missing.join(", ")), v.clone());
+                    }
+                }
+                Err(e) => rep.violation("tree:run-failed:stored-fallback", e, v.clone()),
+            }
+        }
+        else {
+            let image = Builder::new(&gen, cfg.stale).build(&single_type_tree());
+            let case = Case::new(ctx.scratch.join("replay"));
+            case.publish(&image);
+            case.write_tals(&image);
+            let mut config = case.config();
+            cfg.apply(&mut config);
+            match etree::run(&config, false, &LocalExceptions::empty()) {
+                Ok(o) => {
+                    println!("served: {}", o.data.describe());
+                    for (c, m) in judge(&CaseResult { image, served: o.data }, &cfg, None).1 {
+                        println!("{c}: {m}");
+                        rep.violation(format!("tree:{c}:single-type-ca"), m, v.clone());
+                    }
+                }
+                Err(e) => rep.violation("tree:run-failed:single-type", e, v.clone()),
+            }
+        }
+        return rep
+    }
     let want: Vec<String> = v["faults"].as_array().unwrap().iter().map(|x| x.as_str().unwrap().to_string()).collect();
     let sel: Vec<Place> = places.into_iter().filter(|p| want.contains(&p.label())).collect();
     let cfg = Cfg::all().into_iter().find(|c| Some(c.label().as_str()) == v["cfg"].as_str()).unwrap_or(Cfg::default());
